@@ -126,13 +126,14 @@ type c23Oracle struct {
 	queued   map[int]int  // queue ops (and raw queue keys) issued per hash
 	returned map[int]int  // times returned by a retrieval
 	expect   map[int]bool // queued with absent order key, not yet returned or removed
+	fresh    map[int]bool // returned by a retrieval and not queued since
 }
 
 func c23Or(st *State) *c23Oracle {
 	if o, ok := st.V["or"].(*c23Oracle); ok {
 		return o
 	}
-	o := &c23Oracle{queued: map[int]int{}, returned: map[int]int{}, expect: map[int]bool{}}
+	o := &c23Oracle{queued: map[int]int{}, returned: map[int]int{}, expect: map[int]bool{}, fresh: map[int]bool{}}
 	st.V["or"] = o
 	return o
 }
@@ -248,6 +249,11 @@ func execCacheQueue(st *State, line string) Result {
 					ts = k.Timestamp
 				}
 			}
+			if or.fresh[id] { // re-queueing after retrieval must make it eligible again
+				or.expect[id] = true
+				delete(or.fresh, id)
+				res.Tags = append(res.Tags, "queue:after-retrieve")
+			}
 			if !had {
 				or.expect[id] = true
 				res.Tags = append(res.Tags, "queue:effective")
@@ -280,6 +286,7 @@ func execCacheQueue(st *State, line string) Result {
 					fail("returned-more-than-queued", fmt.Sprintf("transaction %d returned %d times, queued %d times", id, or.returned[id], or.queued[id]))
 				}
 				delete(or.expect, id)
+				or.fresh[id] = true
 				v := c23Variant(ver)
 				back, err := w.store.CacheGetTransaction(ver.PayloadHash())
 				must(err)
@@ -461,6 +468,7 @@ func c23Conc(w *c23World, or *c23Oracle, toks []string, fail func(string, string
 	for id, n := range returned {
 		or.returned[id] += n
 		delete(or.expect, id)
+		or.fresh[id] = true
 	}
 	sort.Ints(all)
 	q, o, p, err := w.store.VerifCacheDump()
